@@ -488,3 +488,20 @@ Proof.
   assert (L : (length (vecs w) <= length (vecs (fst (step w o))))%nat) by (destruct B as [B|[_ B]]; lia).
   destruct (IH (fst (step w o)) u) as [C D]; [lia|]. split; [rewrite C; auto|lia].
 Qed.
+
+(* the executable side conditions are sound *)
+Lemma unsharedb_sound w t : unsharedb w t = true -> unshared w t.
+Proof.
+  unfold unsharedb, unshared. intros H u l Hu Ht Hin.
+  destruct (Nat.lt_ge_cases u (length (vecs w))) as [L|L].
+  - rewrite forallb_forall in H. specialize (H u). rewrite in_seq in H.
+    assert (X : (Nat.eqb u t || forallb (fun l0 => negb (memb l0 (cells_of (getv w u)))) (cells_of (getv w t))) = true)
+      by (apply H; lia).
+    apply orb_prop in X. destruct X as [X|X].
+    + apply Nat.eqb_eq in X. auto.
+    + rewrite forallb_forall in X. specialize (X l Ht). apply negb_true_iff in X.
+      apply memb_In in Hin. congruence.
+  - unfold getv in Hin. rewrite nth_overflow in Hin by lia. destruct Hin.
+Qed.
+Lemma safeb_sound w o : safeb w o = true -> safe w o.
+Proof. unfold safeb, safe. destruct (writes_cells o); auto. apply unsharedb_sound. Qed.
